@@ -11,14 +11,18 @@ import DulwichModel.Model.Ewah
 namespace Dulwich.CommitGraphFmt
 open Dulwich Dulwich.Ewah
 
+/-- `GRAPH_PARENT_MISSING`: there is a parent, but it is not in the file -/
 def MISSING : Nat := Gen.Accel.graphParentMissing
+/-- `GRAPH_PARENT_NONE`: no parent in this position -/
+def NONE : Nat := Gen.Accel.graphParentNone
 def EXTRA : Nat := Gen.Accel.graphExtraEdgesNeeded
 def LAST : Nat := Gen.Accel.graphLastEdge
 
+/-- `parents = none` ⇔ `CommitGraphEntry.parents is None`: the graph does not know all parents -/
 structure Entry where
   cid : Bytes
   tree : Bytes
-  parents : List Bytes
+  parents : Option (List Bytes)
   gen : Nat
   time : Nat
   deriving DecidableEq, Repr
@@ -32,12 +36,8 @@ def indexOf (oids : List Bytes) (o : Bytes) : Option Nat :=
   | [] => none
   | x :: xs => if x = o then some 0 else (indexOf xs o).map (· + 1)
 
-/-- `parent_pos(entry, parent)`: `oid_to_index[parent]`, `ValueError` for a parent that is not in the graph
-(the format cannot say "unknown parent") -/
-def parentPos (oids : List Bytes) (p : Bytes) : Except Err Nat :=
-  match indexOf oids p with
-  | some j => .ok j
-  | none => .error .format
+/-- `parent_pos(parent)`: `oid_to_index.get(parent, GRAPH_PARENT_MISSING)` -/
+def parentPos (oids : List Bytes) (p : Bytes) : Nat := (indexOf oids p).getD MISSING
 
 /-- `extra_edges[-1] |= GRAPH_LAST_EDGE` -/
 def flagLast : List Nat → List Nat
@@ -45,105 +45,92 @@ def flagLast : List Nat → List Nat
   | [x] => [x + LAST]
   | x :: y :: r => x :: flagLast (y :: r)
 
-/-- the `if len(entry.parents) == 0 … elif 1 … elif 2 … else` ladder of `write_to_file`:
+/-- the `if entry.parents is None … elif len(entry.parents) == 0 … 1 … 2 … else` ladder of `write_to_file`:
 (slot 1, slot 2, words appended to the extra edge list); `nEdges = len(extra_edges)` so far.
 `GRAPH_EXTRA_EDGES_NEEDED | n` is `+ n` (n < 2^31). -/
-def encodeParents (oids : List Bytes) (ps : List Bytes) (nEdges : Nat) : Except Err (Nat × Nat × List Nat) :=
+def encodeParents (oids : List Bytes) (ps : Option (List Bytes)) (nEdges : Nat) : Nat × Nat × List Nat :=
   match ps with
-  | [] => .ok (MISSING, MISSING, [])
-  | [a] => match parentPos oids a with
-      | .ok x => .ok (x, MISSING, [])
-      | .error e => .error e
-  | [a, b] => match parentPos oids a, parentPos oids b with
-      | .ok x, .ok y => .ok (x, y, [])
-      | .error e, _ => .error e
-      | _, .error e => .error e
-  | a :: rest => match parentPos oids a, rest.mapM (parentPos oids) with
-      | .ok x, .ok r => .ok (x, EXTRA + nEdges, flagLast r)
-      | .error e, _ => .error e
-      | _, .error e => .error e
+  | none => (MISSING, NONE, [])
+  | some [] => (NONE, NONE, [])
+  | some [a] => (parentPos oids a, NONE, [])
+  | some [a, b] => (parentPos oids a, parentPos oids b, [])
+  | some (a :: rest) => (parentPos oids a, EXTRA + nEdges, flagLast (rest.map (parentPos oids)))
 
 /-- the loop over `sorted_entries`: slots per entry and the complete extra edge list -/
-def encodeAll (oids : List Bytes) : List (List Bytes) → Nat → Except Err (List (Nat × Nat) × List Nat)
-  | [], _ => .ok ([], [])
+def encodeAll (oids : List Bytes) : List (Option (List Bytes)) → Nat → List (Nat × Nat) × List Nat
+  | [], _ => ([], [])
   | ps :: more, n =>
-    match encodeParents oids ps n with
-    | .error e => .error e
-    | .ok (p1, p2, ew) =>
-      match encodeAll oids more (n + ew.length) with
-      | .error e => .error e
-      | .ok (slots, edges) => .ok ((p1, p2) :: slots, ew ++ edges)
+    let t := encodeParents oids ps n
+    let r := encodeAll oids more (n + t.2.2.length)
+    ((t.1, t.2.1) :: r.1, t.2.2 ++ r.2)
 
-/-- the parent ladder BEFORE the repair (two slots only, a parent outside the table becomes
-GRAPH_PARENT_MISSING = GRAPH_PARENT_NONE): kept for the regression witnesses -/
+/-- the parent ladder of the ORIGINAL writer (two slots only, no EDGE chunk, a parent outside the table written
+with the value of GRAPH_PARENT_NONE): kept for the regression witnesses -/
 def encodeParentsOld (oids : List Bytes) (ps : List Bytes) : Nat × Nat :=
   let look := fun (i : Nat) => match ps[i]? with
-    | some p => (indexOf oids p).getD MISSING
-    | none => MISSING
+    | some p => (indexOf oids p).getD NONE
+    | none => NONE
   match ps with
-  | [] => (MISSING, MISSING)
-  | [_] => (look 0, MISSING)
+  | [] => (NONE, NONE)
+  | [_] => (look 0, NONE)
   | _ => (look 0, look 1)
-
-/-! ### `generate_commit_graph`: which commits are described at all -/
-
-/-- all parents of every entry are entries themselves -/
-def Closed (es : List (Bytes × List Bytes)) : Prop := ∀ e ∈ es, ∀ p ∈ e.2, p ∈ es.map (·.1)
-
-/-- decidable form of `Closed` -/
-def closedB (es : List (Bytes × List Bytes)) : Bool :=
-  es.all (fun e => e.2.all (fun p => (es.map (·.1)).contains p))
-
-/-- one round of "leave out every commit with a parent that is not (any longer) in the set" -/
-def closeStep (es : List (Bytes × List Bytes)) : List (Bytes × List Bytes) :=
-  es.filter (fun e => e.2.all (fun p => (es.map (·.1)).contains p))
-
-/-- to a fixed point (the code uses a children-map worklist; same greatest closed subset) -/
-def closeEntries : Nat → List (Bytes × List Bytes) → List (Bytes × List Bytes)
-  | 0, es => es
-  | fuel + 1, es =>
-    if (closeStep es).length = es.length then es else closeEntries fuel (closeStep es)
 
 /-! ### parent decoding (reader) -/
 
-/-- `_parse_extra_edges` over the 4-byte words of the EDGE chunk from `index` on -/
-def parseExtraEdges (oids : List Bytes) : List Nat → List Bytes
-  | [] => []
+/-- `_parse_extra_edges` over the 4-byte words of the EDGE chunk from `index` on; `none` ⇔ a word names
+GRAPH_PARENT_MISSING (`parent_pos & ~GRAPH_LAST_EDGE == GRAPH_PARENT_MISSING`) -/
+def parseExtraEdges (oids : List Bytes) : List Nat → Option (List Bytes)
+  | [] => some []
   | w :: ws =>
-    if w ≥ LAST then
-      (match oids[w - LAST]? with | some o => [o] | none => [])
+    if (if w ≥ LAST then w - LAST else w) = MISSING then none
+    else if w ≥ LAST then
+      (match oids[w - LAST]? with | some o => some [o] | none => some [])
     else
-      (match oids[w]? with | some o => o :: parseExtraEdges oids ws | none => parseExtraEdges oids ws)
+      match parseExtraEdges oids ws with
+      | none => none
+      | some r => (match oids[w]? with | some o => some (o :: r) | none => some r)
 
-/-- the parent part of `_parse_chunks`; `edges = none` ⇔ the file has no EDGE chunk -/
-def decodeParents (oids : List Bytes) (edges : Option (List Nat)) (p1 p2 : Nat) : Except Err (List Bytes) :=
-  let first : Except Err (List Bytes) :=
-    if p1 < MISSING then (match oids[p1]? with | some o => .ok [o] | none => .error .format) else .ok []
-  match first with
+/-- first parent slot of `_parse_chunks`: a position, GRAPH_PARENT_MISSING (⇒ unknown) or anything else (no parent) -/
+def firstSlot (oids : List Bytes) (p1 : Nat) : Except Err (Option (List Bytes)) :=
+  if p1 < NONE then (match oids[p1]? with | some o => .ok (some [o]) | none => .error .format)
+  else if p1 = MISSING then .ok none else .ok (some [])
+
+/-- second parent slot: a position, MISSING, a pointer into the extra edge list, or nothing;
+`a` = the parents so far (`none` = already unknown) -/
+def secondSlot (oids : List Bytes) (edges : Option (List Nat)) (a : Option (List Bytes)) (p2 : Nat) :
+    Except Err (Option (List Bytes)) :=
+  if p2 < NONE then
+    (match oids[p2]? with
+      | some o => .ok (a.map (· ++ [o]))
+      | none => .error .format)
+  else if p2 = MISSING then .ok none
+  else if p2 ≥ EXTRA then
+    .ok (match a, (match edges with
+                   | none => some []
+                   | some ws => parseExtraEdges oids (ws.drop (p2 - EXTRA))) with
+      | some x, some y => some (x ++ y)
+      | _, _ => none)
+  else .ok a
+
+/-- the parent part of `_parse_chunks`; `edges = none` ⇔ the file has no EDGE chunk; the answer `none` ⇔ the
+entry's `parents` is None (unknown), never a shortened list -/
+def decodeParents (oids : List Bytes) (edges : Option (List Nat)) (p1 p2 : Nat) :
+    Except Err (Option (List Bytes)) :=
+  match firstSlot oids p1 with
   | .error e => .error e
-  | .ok a =>
-    if p2 < MISSING then
-      (match oids[p2]? with | some o => .ok (a ++ [o]) | none => .error .format)
-    else if p2 ≥ EXTRA then
-      .ok (a ++ (match edges with
-                 | none => []
-                 | some ws => parseExtraEdges oids (ws.drop (p2 - EXTRA))))
-    else .ok a
+  | .ok a => secondSlot oids edges a p2
 
-/-- What a reader of the written file answers for the commit at position `i` — `none` when no file is
-written (the writer raised) or there is no such position: `reader (writer es)` restricted to parent lists.
-The EDGE chunk exists iff there are extra edges. -/
-def roundTripParents (es : List (Bytes × List Bytes)) (i : Nat) : Option (Except Err (List Bytes)) :=
+/-- What a reader of the written file answers for the commit at position `i` (`none`: no such position);
+inside, `.ok none` = "unknown, read the commit object".  The EDGE chunk exists iff there are extra edges. -/
+def roundTripParents (es : List (Bytes × List Bytes)) (i : Nat) : Option (Except Err (Option (List Bytes))) :=
   let oids := es.map (·.1)
-  match encodeAll oids (es.map (·.2)) 0 with
-  | .error _ => none
-  | .ok (slots, edges) =>
-    match slots[i]? with
-    | none => none
-    | some (p1, p2) => some (decodeParents oids (if edges.isEmpty then none else some edges) p1 p2)
+  let r := encodeAll oids (es.map (fun e => some e.2)) 0
+  match r.1[i]? with
+  | none => none
+  | some (p1, p2) => some (decodeParents oids (if r.2.isEmpty then none else some r.2) p1 p2)
 
-/-- the same with the writer as it was before the repair -/
-def roundTripParentsOld (es : List (Bytes × List Bytes)) (i : Nat) : Option (Except Err (List Bytes)) :=
+/-- the same with the writer as it originally was -/
+def roundTripParentsOld (es : List (Bytes × List Bytes)) (i : Nat) : Option (Except Err (Option (List Bytes))) :=
   match es[i]? with
   | none => none
   | some e =>
@@ -196,14 +183,13 @@ def tocAndData (chunks : List (Bytes × Bytes)) : Bytes :=
     | (id, d) :: r, off => id ++ beBytes 8 off ++ go r (off + d.length)
   go chunks first ++ (chunks.map (·.2)).flatten
 
-/-- `CommitGraph.write_to_file` (`ValueError` on an empty graph or a parent outside the graph,
-`struct.error` on field overflow) -/
+/-- `CommitGraph.write_to_file` (`ValueError` on an empty graph, `struct.error` on field overflow) -/
 def writeFile (hashVersion : Nat) (entries : List Entry) : Except Err Bytes := do
   if entries.isEmpty then .error .format
   let es := sortEntries entries
   let oids := es.map (·.cid)
   let oidl := oids.flatten
-  let (slots, edges) ← encodeAll oids (es.map (·.parents)) 0
+  let (slots, edges) := encodeAll oids (es.map (·.parents)) 0
   let recs ← (es.zip slots).mapM (fun (e, sl) => cdatRecord e sl)
   let cdat := recs.flatten
   let fan := (fanout es).flatMap (beBytes 4)
@@ -272,6 +258,6 @@ def readFile (file : Bytes) : Except Err (List Entry) := do
 
 /-- `get_parents`: `_oid_to_index[oid] = i` in a loop keeps the LAST position of a repeated id -/
 def getParents (es : List Entry) (oid : Bytes) : Option (List Bytes) :=
-  (es.reverse.find? (·.cid = oid)).map (·.parents)
+  (es.reverse.find? (·.cid = oid)).bind (·.parents)
 
 end Dulwich.CommitGraphFmt
